@@ -4,7 +4,7 @@
 (* holds, per operation, the operation with its arguments and what the real *)
 (* QXmppPromise/QXmppTask objects reported afterwards:                      *)
 (*   {"e":"Then","b":"none","o":{"runs":0,"got":0,"fin":0,"has":0,"lv":0,   *)
-(*                              "lc":1,"p":1,"t":1,"ctx":"alive"}}           *)
+(*                              "lc":1,"p":1,"t":1,"refin":0,"ctx":"alive"}}*)
 (* o.p / o.t / o.ctx are the harness's own ground truth (how many handles   *)
 (* it holds, whether its context QObject is alive); runs/got/fin/has/lv/lc  *)
 (* are observations of the implementation.                                  *)
@@ -41,7 +41,8 @@ TInit ==
 Proj == [runs |-> runs, got |-> got,
          fin |-> IF Refs = 0 THEN -1 ELSE B2N(fin),
          has |-> IF Refs = 0 THEN -1 ELSE B2N(stored),
-         lv |-> B2N(valLive), lc |-> B2N(capLive), p |-> pRefs, t |-> tRefs, ctx |-> ctx]
+         lv |-> B2N(valLive), lc |-> B2N(capLive), p |-> pRefs, t |-> tRefs, ctx |-> ctx,
+         refin |-> 0]    \* the body's guarded second completion never goes through
 
 ModelAct(ev) ==
     CASE ev.e = "CopyPromise" -> CopyPromise
